@@ -43,6 +43,9 @@ TRUSTED = [
     "Hall_classic sea/surface and NLDrude_Fermider2 are compared by the oracle only (their relation needs the "
     "antisymmetrisation / full symmetry of the tensors, which the index calculus does not express); the f'' form is "
     "compared on tight-binding models only (a box-confined k.p band would need > 40^3 points)",
+    "call histories (oracle): the same calculator objects are reused across models with different numbers of bands "
+    "(1-5), cell volumes, FFT grids and k-shifts, small->large and large->small (thorough: also a random order, tetra on "
+    "and off); every result must equal a fresh object's to 1e-10",
     "SystemKP wrappers: checked on the real code that Ham/derHam/der2Ham/der3Ham (analytic or finite-difference, every "
     "subset of supplied derivatives, cartesian and reduced k convention) fold k into the box and equal the exact "
     "derivative of the polynomial model at the folded point",
